@@ -215,8 +215,32 @@ def scaled_inputs(rnd, tier):
     return out
 
 
+class ShortReads:
+    """a stream whose read(n) returns pieces of the given sizes (cyclically), never more than n"""
+    def __init__(self, data, sizes):
+        self.data, self.pos, self.sizes, self.k = data, 0, sizes, 0
+
+    def read(self, n=-1):
+        size = self.sizes[self.k % len(self.sizes)]
+        self.k += 1
+        if n is not None and n >= 0:
+            size = min(size, n)
+        piece = self.data[self.pos:self.pos + size]
+        self.pos += len(piece)
+        return piece
+
+
+def crc(name):
+    import zlib
+    return zlib.crc32(name.encode()) + SEED
+
+
+FULL_BOM = False
+
+
 def corpus_work(items):
     yaml = use_repo()
+    import io
     from yaml.reader import Reader
     traces, meta, ttraces = [], [], []
     for name, text in items:
@@ -232,7 +256,25 @@ def corpus_work(items):
             variants += [('py-textstream', yaml.Loader, lambda: io.StringIO(text), len(text), True),
                          ('py-bytestream', yaml.Loader, lambda: io.BytesIO(text.encode('utf-8')), len(text), True),
                          ('c-bytestream', yaml.CLoader, lambda: io.BytesIO(text.encode('utf-8')), len(text.encode('utf-8')), False)]
-        for backend, L, mk, length, exact in variants:
+        # short reads: every refill boundary of the reader falls inside some lexeme (anchors, aliases, directive names, plain
+        # scalars, indentation), at seeded piece sizes of 1-7 units
+        if name.startswith('@') or any(c in text for c in '&*%!') or crc(name) % 4 == 0:
+            sizes = [1 + (crc(name) + 7 * k) % 7 for k in range(5)]
+            variants += [('py-shortread-text', yaml.Loader, lambda: ShortReads(text, sizes), len(text), True),
+                         ('py-shortread-bytes', yaml.Loader, lambda: ShortReads(text.encode('utf-8'), sizes), len(text), True)]
+        # byte input that starts with a byte order mark: the input of the property is then the decoded character sequence, the mark
+        # included (that is the sequence the reader's index counts on the unchanged tree, as for a str that starts with U+FEFF)
+        bomv = []
+        if not text.startswith('\ufeff') and '~' not in name:
+            t2 = '\ufeff' + text
+            b2, m2 = line_structure(t2)
+            enc = [('py-bom-utf8', 'utf-8'), ('py-bom-utf16le', 'utf-16-le'), ('py-bom-utf16be', 'utf-16-be')]
+            for tagname, codec in (enc if name.startswith('@') or FULL_BOM else [enc[crc(name) % 3]]):
+                data = t2.encode(codec)
+                bomv.append((tagname, yaml.Loader, (lambda d=data: d) if crc(name) % 2 else (lambda d=data: io.BytesIO(d)),
+                             len(t2), True, t2, b2, m2))
+        for variant in [x + (text, breaks, boms) for x in variants] + bomv:
+            backend, L, mk, length, exact, txt, brk, bms = variant
             evs, outcome, errm = [], 'ok', []
             try:
                 for ev in yaml.parse(mk(), Loader=L):
@@ -245,8 +287,8 @@ def corpus_work(items):
                         errm.append([m.index, m.line, m.column])
             except Exception as ex:
                 outcome = 'exception:' + type(ex).__name__
-            traces.append(ev_trace(evs, outcome, errm, length, exact, breaks, boms))
-            meta.append({'input': name, 'backend': backend, 'text': text if len(text) < 400 else text[:400] + '...'})
+            traces.append(ev_trace(evs, outcome, errm, length, exact, brk, bms))
+            meta.append({'input': name, 'backend': backend, 'text': txt if len(txt) < 400 else txt[:400] + '...'})
             # token level
             toks, outcome, errm = [], 'ok', []
             try:
@@ -256,9 +298,9 @@ def corpus_work(items):
                     chk, val, span = False, '', ''
                     if exact and s.line == e.line:
                         if kind in ('Anchor', 'Alias'):
-                            chk, val, span = True, tk.value, text[s.index + 1:e.index]
+                            chk, val, span = True, tk.value, txt[s.index + 1:e.index]
                         elif kind == 'Scalar' and tk.plain:
-                            chk, val, span = True, tk.value, text[s.index:e.index]
+                            chk, val, span = True, tk.value, txt[s.index:e.index]
                     toks.append({'k': kind, 's': s.index, 'e': e.index, 'sl': s.line, 'sc': s.column, 'el': e.line,
                                  'ec': e.column, 'chk': chk, 'val': val, 'span': span})
             except yaml.YAMLError as ex:
@@ -269,7 +311,7 @@ def corpus_work(items):
             except Exception as ex:
                 outcome = 'exception'
             ttraces.append({'len': length, 'outcome': outcome, 'tokens': toks, 'errmarks': errm, 'exact': exact,
-                            'breaks': breaks, 'boms': boms})
+                            'breaks': brk, 'boms': bms})
     return traces, meta, ttraces
 
 
@@ -317,6 +359,8 @@ def main(tier, replay=None):
                         {'tokens': uniq[k], 'events': k[0], 'outcome': k[1], 'at_event': at})
     # (c) corpus + mutations, both back-ends
     items = corpus_inputs(tier)
+    global FULL_BOM
+    FULL_BOM = tier == 'thorough'
     import multiprocessing as mp
     chunks = [items[i::32] for i in range(32)]
     with mp.Pool(16) as pool:
